@@ -32,7 +32,9 @@ func (ce *CallExpression) String() string {
 		}
 	}
 
-	out.WriteString(ce.Function.String())
+	if ce.Function != nil {
+		out.WriteString(ce.Function.String())
+	}
 	out.WriteString("(")
 	out.WriteString(strings.Join(args, ", "))
 	out.WriteString(")")
